@@ -14,6 +14,14 @@ Mirrors, branch by branch,
 Payloads are opaque byte strings: `Env.decode` says what `pickle.loads` + the `isinstance` tests make of a
 payload (the harness pickles real `QMI_Message` objects and tells the driver).  Python exceptions are values
 (`Why`, `HsErr`).  Core Lean only (the driver exe links this file).
+
+Deliberately mirrored oddities of the code as it is: the peer name is stored before the handshake direction is
+checked; "no handshake yet" is `peer_context_name is None`, so a handshake without a name can be repeated;
+`_clear_pending_requests` catches only `QMI_MessageDeliveryException` (a handler's other exception aborts the
+loop, leaves the table uncleared and propagates: out of `_handle_read` after a violation, caught by it and
+followed by a `KeyError` from the second `remove_peer_connection` after EOF); the pending table stores the
+peer's *real* name as destination, so the error replies made on close carry the real name, not the alias.
+Normalised (unobservable) state: the receive buffer of a closed connection is set to empty.
 -/
 namespace QmiModel.Frame
 
